@@ -20,7 +20,8 @@ is handed to the blockchain module is the original transaction list — same tra
 (hence the same merkle root and, the header being copied, the same block hash). -/
 theorem rebuild_exact (s : State) (sh : TxId → SH) (key : String) (height : Int) (miner : TxId)
     (segs : List (List TxId)) (sender : Nat)
-    (hnew : s.seen.contains key = false) (hup : s.pool.up = true) (hav : Available s.pool sh segs)
+    (hnew : s.seen.contains key = false) (hup : s.pool.up = true) (hshort : s.pool.short = false)
+    (hav : Available s.pool sh segs)
     (hsize : ((1 + segs.flatten.length : Nat) : Int) ≤ bigSlice) :
     recvLt s (honest sh key height miner segs sender) =
       .ok (postChain { s with seen := key :: s.seen } key, .posted ((miner :: segs.flatten).map some)) := by
@@ -43,7 +44,7 @@ theorem rebuild_exact (s : State) (sh : TxId → SH) (key : String) (height : In
   unfold recvLt
   simp only [hnew, Bool.false_eq_true, if_false, Bool.not_true, e1, e2, e3, e4, e5]
   unfold build
-  simp only [hne, Bool.false_eq_true, if_false, hmiss, hup, Bool.not_true]
+  simp only [hne, Bool.false_eq_true, if_false, hmiss, hup, Bool.not_true, hshort, Bool.false_and]
   have hf' : fill s.pool (enumWork 1 (List.map sh flat)) (some miner :: List.replicate flat.length none) true =
       .ok (some miner :: List.map some flat, true) := by simpa using hf
   rw [hf']
@@ -77,7 +78,8 @@ segment is in the pool), the receive path posts the exact original block iff eve
 otherwise nothing is posted and the block is queued holding exactly the available transactions, in place. -/
 theorem rebuild_or_wait (s : State) (sh : TxId → SH) (key : String) (height : Int) (miner : TxId)
     (marks : List Marked) (sender : Nat)
-    (hnew : s.seen.contains key = false) (hup : s.pool.up = true) (hok : ∀ m ∈ marks, SegOk s.pool sh m)
+    (hnew : s.seen.contains key = false) (hup : s.pool.up = true) (hshort : s.pool.short = false)
+    (hok : ∀ m ∈ marks, SegOk s.pool sh m)
     (hsize : ((1 + (flatOf marks).length : Nat) : Int) ≤ bigSlice) :
     recvLt s (honest sh key height miner (marks.map (·.1)) sender) =
       if marks.all (·.2) then
@@ -108,7 +110,7 @@ theorem rebuild_or_wait (s : State) (sh : TxId → SH) (key : String) (height : 
   unfold recvLt
   simp only [hnew, Bool.false_eq_true, if_false, Bool.not_true, e1, e2, e3, e4, e5]
   unfold build
-  simp only [hne, Bool.false_eq_true, if_false, hmiss, hup, Bool.not_true]
+  simp only [hne, Bool.false_eq_true, if_false, hmiss, hup, Bool.not_true, hshort, Bool.false_and]
   have hf' : fill s.pool (enumWork 1 (List.map sh flat)) (some miner :: List.replicate flat.length none) true =
       .ok (some miner :: (marks.map segSlots).flatten, marks.all (·.2)) := by simpa using hf
   rw [hf']
@@ -130,6 +132,46 @@ example : ∀ m ∈ [(([1] : List TxId), true), ([2, 3], false)],
     intro t ht
     simp only [List.mem_cons, List.mem_nil_iff, or_false] at ht
     rcases ht with rfl | rfl <;> decide
+
+/-- **exactness after late arrival** ("waits until they arrive"): take the block that `rebuild_or_wait` queued — the
+available segments filled in place, the others empty — and any later pool in which every segment head is
+retrievable (the missing transactions have arrived; the pool may have changed arbitrarily otherwise). A rebuild
+attempt then completes it to exactly the original transaction list, in the original positions. -/
+theorem late_arrival_rebuilds_exact (pool' : Pool) (sh : TxId → SH) (key : String) (sender : Nat) (height recvT : Int)
+    (miner : TxId) (marks : List Marked)
+    (hup : pool'.up = true) (hshort : pool'.short = false) (hav : Available pool' sh (marks.map (·.1))) :
+    build pool' ⟨key, sender, height, recvT, (miner :: flatOf marks).map sh, some miner :: (marks.map segSlots).flatten⟩ =
+      .ok ⟨true, some ((miner :: flatOf marks).map some),
+           ⟨key, sender, height, recvT, (miner :: flatOf marks).map sh, (miner :: flatOf marks).map some⟩⟩ := by
+  have hm := missing_marks sh ((miner :: flatOf marks).map sh) marks [sh miner] [] (by simp)
+  have hf := fill_marks pool' sh marks hav [some miner] [] [] true
+  simp only [List.length_cons, List.length_nil, Nat.zero_add, List.append_nil] at hm hf
+  have hmiss : missing ((miner :: flatOf marks).map sh) (some miner :: (marks.map segSlots).flatten) 0 =
+      .ok (workOf sh marks 1) := by
+    simp only [missing]; exact hm
+  have hne : ((miner :: flatOf marks).map sh).isEmpty = false := by simp
+  unfold build
+  simp only [hne, Bool.false_eq_true, if_false, hmiss, hup, Bool.not_true, hshort, Bool.false_and]
+  have hf' : fill pool' (workOf sh marks 1) (some miner :: (marks.map segSlots).flatten) true =
+      .ok (some miner :: (flatOf marks).map some, true) := by
+    have := hf
+    simp only [List.cons_append, List.nil_append, fill] at this
+    exact this
+  rw [hf']
+  simp
+
+/-- …and the tick posts it: a queued block completed by late arrivals is posted exactly, at whatever time the
+pass runs (`complete_pool_rebuilds_at_any_time` below gives the membership for an arbitrary queue). -/
+theorem late_arrival_posted_exact (s : State) (sh : TxId → SH) (key : String) (sender : Nat) (height recvT : Int)
+    (miner : TxId) (marks : List Marked)
+    (hup : s.pool.up = true) (hshort : s.pool.short = false) (hav : Available s.pool sh (marks.map (·.1)))
+    (hq : s.pend = [⟨key, sender, height, recvT, (miner :: flatOf marks).map sh, some miner :: (marks.map segSlots).flatten⟩]) :
+    (tick s).map (fun r => (r.2, r.1.pend)) = .ok (⟨[(miner :: flatOf marks).map some], []⟩, []) := by
+  have hb := late_arrival_rebuilds_exact s.pool sh key sender height recvT miner marks hup hshort hav
+  unfold tick
+  rw [hq]
+  simp only [pendList, hb]
+  simp [Res.map, postChain_pend]
 
 /-! ### missing transactions: wait, then fall back -/
 
@@ -224,6 +266,31 @@ example :
     let s1 := (recvLtTotal s0 (honest sh "k" 9 0 [[1], [2]] 3)).1
     ((tick { s1 with now := 5000, pool := pushAll sh s1.pool [[2]] }).map fun r => (r.2.posted, r.2.reqs, r.1.pend.length)) =
       .ok ([[some 0, some 1, some 2]], [], 0) := by decide
+
+/-- **missing_waits, all conjuncts** for a queue holding one block: while it cannot be completed and its pending
+time is below the timeout, the pass keeps it (with what could be filled), posts nothing and requests nothing. -/
+theorem missing_waits_exact (s : State) (pd : Pend) (r : BuildOut) (hq : s.pend = [pd])
+    (hb : build s.pool pd = .ok r) (hnd : r.done = false) (hearly : s.now - pd.recvT < s.timeout) :
+    (tick s).map (fun x => (x.2, x.1.pend)) = .ok (⟨[], []⟩, [r.pd]) := by
+  unfold tick
+  rw [hq]
+  have : ¬ (s.now - pd.recvT ≥ s.timeout) := by omega
+  simp [pendList, hb, hnd, this, Res.map]
+
+/-- **timeout_requests_full, all conjuncts** for a queue holding one block: when it still cannot be completed at a
+pass at or after the timeout it is taken off the queue, nothing is posted, and exactly one block request goes to its
+sender if its height is above the current one — none otherwise. -/
+theorem timeout_exact (s : State) (pd : Pend) (r : BuildOut) (hq : s.pend = [pd])
+    (hb : build s.pool pd = .ok r) (hnd : r.done = false) (hlate : s.now - pd.recvT ≥ s.timeout) :
+    (tick s).map (fun x => (x.2, x.1.pend)) =
+      .ok (⟨[], if pd.height > s.cur then [⟨pd.sender, pd.height⟩] else []⟩, []) := by
+  have hm := build_meta s.pool pd r hb
+  unfold tick
+  rw [hq]
+  simp only [pendList, hb, hnd, Bool.false_eq_true, if_false, hlate, if_true]
+  by_cases hh : pd.height > s.cur
+  · simp [Res.map, hh, hm.1, hm.2.1]
+  · simp [Res.map, hh, hm.2.1]
 
 /-- the request goes out only for heights above the current one (`只请求大于本地高度的区块`) -/
 theorem no_request_for_old_height (s : State) (s' : State) (o : TickOut) (ht : tick s = .ok (s', o))
